@@ -6,7 +6,7 @@ import copy
 
 from model_lex import lex, Tok
 from schema import (F_MULTI, F_LIST, F_NOCASE, F_TITLE, F_NODEFAULT, F_NO_TITLE_DUPES, F_RESET, F_IGNORE_UNKNOWN,
-                    F_DEPRECATED, F_DROP, F_COMMENTS, F_MODIFIED, F_KEYSTRVAL, CB_PARSE, CB_VALID, CB_VALID2, CB_COMMENT)
+                    F_DEPRECATED, F_DROP, F_COMMENTS, F_MODIFIED, F_KEYSTRVAL, F_SIMPLE, CB_PARSE, CB_VALID, CB_VALID2, CB_COMMENT)
 
 LONG_MAX = 2 ** 63 - 1
 LONG_MIN = -2 ** 63
@@ -214,7 +214,7 @@ class Model:
             o.vals = [int(dv)]
         elif k == "str":
             o.vals = [dv]           # may be None: one unset value
-        o.reset = True
+        o.reset = not (f & F_SIMPLE)    # a "simple" option has no declared default: the application's variable holds a value
 
     # ---- callbacks -----------------------------------------------------------------------
     def tick(self, kind, o, **kw):
